@@ -55,7 +55,8 @@ CLAUSES = [
 RULE = ("MIDI files written with mido: resolutions from {1,7,24,48,96,100,480,960,997,32767}, 1-4 tracks, long delta "
         "patterns (drift), note-on velocity 0 as note-off, all groupings, meta selections and target indices, all 30 key names (each judged "
         "against the harness's own table of the format's key names), files whose tracks all start with a time signature at tick 0; "
-        "non-trivial = resolution != 24 or more than one track")
+        "notes that collapse to zero length after rescaling followed by notes of their key (D17's class), tracks listed in two groups in either "
+        "order (D20's class); non-trivial = resolution != 24 or more than one track")
 ASSUMPTIONS = ["mido's writer/reader assumed faithful",
                "the code accumulates IEEE doubles; the model uses exact rationals with round-half-even; both may differ only at exact .5 ties, where the oracle accepts either neighbour",
                "model: SCoda.convert (Model/Midi.lean), tied by correspondence"]
@@ -177,7 +178,8 @@ def o_load(inp):
                 for k, v in p.items():
                     u.setdefault(k, []).extend(v)
             if norm_intervals(u) != sounding(tl):
-                fails.append(("routing", f"group {gi}: expected union {norm_intervals(u)}, loaded {sounding(tl)}"))
+                fails.append(("routing", H.Detail(f"group {gi}: expected union {norm_intervals(u)}, loaded {sounding(tl)}",
+                                                  group=gi, expected=norm_intervals(u), loaded=sounding(tl))))
     # signatures
     considered = [i for i in range(len(tracks)) if in_any(i) or i in meta_idx]
     exp_sigs = []
@@ -240,12 +242,84 @@ def shared_track(inp):
     return any(len(set(g)) != len(g) for g in inp["groups"])
 
 
+def _routed(groups, gi):
+    """the tracks whose FIRST listing (first group that lists them, in group order) is group `gi`, in the order the group lists them"""
+    out = []
+    for i in groups[gi]:
+        if i not in out and next(g for g, grp in enumerate(groups) if i in grp) == gi:
+            out.append(i)
+    return out
+
+
+def _track_events(evs, ppq):
+    """note events (rounded tick, type, channel, pitch, velocity) of one file track in file order (a note-on of velocity 0 is a note-off);
+    None when a position rounds ambiguously (exact .5 tie)"""
+    cum, out = 0, []
+    for e in evs:
+        cum += e[2]
+        if e[0] in (6, 7):
+            ts = expected_tick(cum, ppq)
+            if len(ts) != 1:
+                return None
+            out.append((min(ts), 6 if (e[0] == 7 and e[4] == 0) else e[0], e[1], e[3], e[4]))
+    return out
+
+
+def _text_union(lists):
+    """the sounding set the property text gives a group of tracks: per track the closed intervals (saturating counter), united"""
+    u = {}
+    for l in lists:
+        timed = [(t, (ty, ch, None, note, vel, None, None, None, None, None)) for (t, ty, ch, note, vel) in l]
+        for k, v in norm_intervals({k: [(a, b) for (a, b) in v if b is not None] for k, v in intervals(timed).items()}).items():
+            u.setdefault(k, []).extend(v)
+    return norm_intervals(u)
+
+
+def _routing_facts(f):
+    """(loaded sounding set of the failing group, the text's union over ALL tracks the group lists, the text's union over the tracks ROUTED to
+    it by first listing, the event lists of the routed tracks) — from the structured detail and the plain input; None if not applicable"""
+    d = H.data_of(f)
+    inp = f["input"]
+    if f["clause"] != "routing" or "group" not in d:
+        return None
+    groups, gi = [list(g) for g in inp["groups"]], d["group"]
+    if not (0 <= gi < len(groups)):
+        return None
+    if any(not (0 <= i < len(inp["tracks"])) for i in groups[gi]):
+        return None
+    lists = {i: _track_events([tuple(e) for e in inp["tracks"][i]], inp["ppq"]) for i in set(groups[gi])}
+    if any(l is None for l in lists.values()):
+        return None
+    routed = [lists[i] for i in _routed(groups, gi)]
+    return d["loaded"], _text_union([lists[i] for i in groups[gi]]), _text_union(routed), routed
+
+
 def kf_d20(f):
-    return f["clause"] == "routing" and "expected union" in f["detail"] and shared_track(f["input"])
+    # OUTCOME (audit round 4, B2): the failing group lists a track whose first listing is another group, and what was loaded for it is exactly
+    # the union over the tracks routed to it by FIRST listing — the doubly-listed track's notes are absent here (they are in the first group
+    # that lists it: that group's own comparison), nothing else differs.  A group that LOSES notes of a track routed to it, or that receives
+    # the track although an earlier group lists it, is not this finding
+    r = _routing_facts(f)
+    if r is None:
+        return False
+    loaded, listed_union, routed_union, _ = r
+    return shared_track(f["input"]) and routed_union != listed_union and loaded == routed_union
 
 
 def kf_d17(f):
-    return f["clause"] == "routing" and "expected union" in f["detail"] and zero_length_note(f["input"])
+    # OUTCOME (audit round 4, B2): what was loaded for the failing group is exactly what the mechanism (h3midi_util.merged_notes_model on the
+    # events of the tracks routed to THIS group: per-track normalise, canonical order, merge, normalise) gives, and every (channel, pitch) on
+    # which that differs from the union is the key of a note of one of THOSE tracks whose note-on and note-off round to one tick
+    r = _routing_facts(f)
+    if r is None:
+        return False
+    loaded, _, routed_union, routed = r
+    model = H.sounding_of_events(H.merged_notes_model(routed, normalise_each=True))
+    damaged = {k for k in set(model) | set(routed_union) if model.get(k) != routed_union.get(k)}
+    collapsing = set()
+    for l in routed:
+        collapsing |= H.zero_length_keys(l)
+    return bool(damaged) and damaged <= collapsing and loaded == model
 
 
 def setup(ctx):
@@ -262,7 +336,7 @@ def setup(ctx):
     ctx.oracle("load", o_load)
 
 
-def gen_track(rng, ppq, n_events, wf=True):
+def gen_track(rng, ppq, n_events, wf=True, zero=False):
     evs = []
     open_ = {}
     for _ in range(n_events):
@@ -271,6 +345,14 @@ def gen_track(rng, ppq, n_events, wf=True):
             delta = max(delta, ppq // 12 + 1)     # keep most notes at least one library tick long
         k = rng.random()
         ch = rng.randrange(2)
+        if zero and rng.random() < 0.12:
+            # a note that collapses to zero length after rescaling (D17's class): note-on and note-off on one file tick, or less than half a
+            # library tick apart; the keys are few, so later notes of the same channel and pitch are likely
+            note = rng.randint(58, 61)
+            if (ch, note) not in open_:
+                evs.append((7, ch, delta, note, rng.randint(1, 127), None, None, None, None, None))
+                evs.append((rng.choice([6, 7]), ch, rng.choice([0, 0, max(0, ppq // 50)]), note, 0, None, None, None, None, None))
+                continue
         if k < 0.45:
             note = rng.randint(58, 64)
             if wf and (ch, note) in open_:
@@ -333,7 +415,8 @@ def generate(ctx):
         ppq = rng.choice([1, 7, 24, 48, 96, 100, 480, 960, 997, 32767])
         nt = rng.randint(1, 4)
         long_ = rng.random() < 0.15
-        tracks = [gen_track(rng, ppq, rng.randint(0, 60 if long_ else 10), wf=rng.random() < 0.7) for _ in range(nt)]
+        zero_ = rng.random() < 0.15
+        tracks = [gen_track(rng, ppq, rng.randint(0, 60 if long_ else 10), wf=rng.random() < 0.7, zero=zero_) for _ in range(nt)]
         if any(wf_violations([(0, (6 if (e[0] == 7 and e[4] == 0) else e[0], e[1], None, e[3])) for e in t if e[0] in (6, 7)]) for t in tracks):
             ctx.count("ill-formed-track")
         if rng.random() < 0.3:
@@ -360,11 +443,14 @@ def generate(ctx):
             while used:
                 kk = rng.randint(1, len(used))
                 groups.append(sorted(used[:kk])); used = used[kk:]
-        if nt > 1 and rng.random() < 0.08:
+        if nt > 1 and rng.random() < 0.15:
+            # a track listed in two groups (D20's class): added to a group that does not list it yet, in front of or behind the group that does
             gi_ = rng.randrange(len(groups))
             extra = rng.randrange(nt)
             if extra not in groups[gi_]:
                 groups[gi_] = sorted(groups[gi_] + [extra])
+            if rng.random() < 0.4:
+                groups.insert(rng.randint(0, len(groups)), [rng.randrange(nt)])
         meta = [j for j in range(nt) if rng.random() < 0.7] or [0]
         target = rng.choice([0, 0, len(groups) - 1, rng.randint(-1, len(groups))])
         ctx.case((ppq, tracks, groups, meta, target), ppq != 24 or nt > 1)
